@@ -4,6 +4,7 @@
   Quantification: every byte string `b`, every program id `p` (any byte string).
 -/
 import SplProofs.Lemmas.Token
+import SplProofs.Lemmas.TokenFrame
 
 namespace C17
 open Token Bytes Gen.Token
@@ -418,5 +419,29 @@ theorem C17_trait_getters (t22 : Bool) (d : Bytes) :
       simp [checkedGetter, Res.map, SPL_TOKEN_MINT_SUPPLY_OFFSET, SPL_TOKEN_MINT_DECIMALS_OFFSET, byteAt,
         List.getElem?_eq_getElem h44]
   exact ⟨A.1, A.2.1, A.2.2.1, B.1, B.2.1, A.2.2.2.1, A.2.2.2.2.1, A.2.2.2.2.2, B.2.2.1, B.2.2.2⟩
+
+/-- **Length frame.**  For a buffer of 357 bytes or more — up to the 10 MiB of the largest account,
+    or the 4 GiB where a 32-bit length wraps — every parser and checked getter returns what it
+    returns on the 357-byte stand-in made of the buffer's first 166 bytes and zeros: nothing past
+    byte 165 is read and no length beyond 356 is special.  (The driver evaluates `tokbig` /
+    `tokgetbig` cases this way.) -/
+theorem C17_length_frame (d p : Bytes) (t22 : Bool) (h : 357 ≤ d.length) :
+    genericAccount d p = genericAccount (TokenFrame.compress d) p ∧
+    genericMint d p = genericMint (TokenFrame.compress d) p ∧
+    getAccountMint t22 d = getAccountMint t22 (TokenFrame.compress d) ∧
+    getAccountOwner t22 d = getAccountOwner t22 (TokenFrame.compress d) ∧
+    getAccountAmount t22 d = getAccountAmount t22 (TokenFrame.compress d) ∧
+    getMintSupply t22 d = getMintSupply t22 (TokenFrame.compress d) ∧
+    getMintDecimals t22 d = getMintDecimals t22 (TokenFrame.compress d) := by
+  obtain ⟨hH, hT, e⟩ := TokenFrame.split d h
+  have := TokenFrame.generic_app hH hT TokenFrame.zeros_len p t22
+  rw [← e] at this
+  exact this
+
+/-- the frame is not vacuous: a Token-2022 account of any size ≥ 356 parses, by its head alone -/
+example (T : Bytes) (hT : 190 ≤ T.length) :
+    genericAccount ((zeros 108 ++ [1] ++ zeros 56 ++ [2]) ++ T) TOKEN_2022_ID = .ok (some ⟨zeros 32, zeros 32, 0⟩) := by
+  rw [(TokenFrame.generic_app (H := zeros 108 ++ [1] ++ zeros 56 ++ [2]) (by decide) hT TokenFrame.zeros_len TOKEN_2022_ID true).1]
+  decide
 
 end C17
